@@ -36,7 +36,7 @@ PROFILES = {
     "fi": dict(fi=1.0, p_batch=0.2, p_dup=0.08, p_read=0.08, faults=dict(late_listing=0.1, zero_run=0.2), coupon=1.0),
     "schedule": dict(fi=0.15, p_batch=0.3, p_dup=0.2, p_read=0.25, faults=dict(late_listing=0.1, nan_tick=0.1), coupon=0.3),
     "sizing": dict(fi=0.0, p_batch=0.1, p_dup=0.02, p_read=0.02, faults=dict(nan_tick=0.2, zero_tick=0.1, late_listing=0.1), coupon=0.0, sizing=True),
-    "bankrupt": dict(fi=0.0, p_batch=0.1, p_dup=0.05, p_read=0.05, faults={}, coupon=0.0, leverage=True),
+    "bankrupt": dict(fi=0.0, p_batch=0.1, p_dup=0.05, p_read=0.05, faults={}, coupon=0.3, leverage=True),  # (coupon-paying securities under a market-value root: carry is swept on the update that may liquidate)
 }
 
 PROPS_STRAT = ["value", "weight", "price", "notional_value", "capital", "prices", "values", "notional_values", "cash", "fees", "flows", "positions", "outlays"]
@@ -815,10 +815,11 @@ class TreeSim(taps.Sim):
         p, sspec = self.pick_strat(o)
         node = self.rnode(p)
         done = False
-        if self.plan.get("twin_flush") and (self.in_batch or root.stale) and (kind in ("rebal", "close", "flatten") or (kind == "alloc" and o.get("mode") in ("close", "close_ulp", "close_near"))):
-            # flush-schedule twins: an operation that sizes itself from current values is preceded by a refresh in both
-            # schedules (whether an update=False change is seen by a later value read depends on whether the stale flag
-            # happens to be pending - the caller's documented opt-out, not a property of the update machinery)
+        if self.plan.get("twin_flush") and self.in_batch and (kind in ("rebal", "close", "flatten") or (kind == "alloc" and o.get("mode") in ("close", "close_ulp", "close_near"))):
+            # flush-schedule twins: while update=False changes are pending, an operation that sizes itself from current values
+            # is preceded by a refresh in both schedules (whether an update=False change is seen by a later value read depends
+            # on whether the stale flag happens to be pending - the caller's documented opt-out, not a property of the update
+            # machinery).  Changes made with update=True are the machinery's own business: no refresh is supplied for those.
             self.flush("pre-read flush")
         if kind == "adjust":
             if o.get("root"):
@@ -1456,6 +1457,43 @@ def gen_worthless_sub_plan(rng, tier="quick"):
     fired["zero_value_sub_with_positions"] = 1
     cfg = {"integer": rng.random() < 0.5, "comm": {"kind": "zero"}, "capital": rng.choice([1e5, 1e6]), "fi": False, "obs_price": rng.random() < 0.5, "flush": "eager", "profile": "bankrupt"}
     return {"driver": "tree", "cfg": cfg, "tree": tree, "feed": {"dates": dates, "tickers": tickers, "prices": prices, "style": style}, "ops": ops, "fired": fired}
+
+
+def gen_levered_carry_plan(rng, tier="quick"):
+    """a leveraged market-value book in a coupon-paying security: sizeable carry (coupon less funding cost) is parked on the
+    security every date and swept by the root on the next date's first update - the very update that may find equity below zero"""
+    ndates = rng.randint(4, 10)
+    tickers = ["M", "N"]
+    dates, style = feedmod.gen_dates(rng, ndates, rng.choice(["bday", "gaps"]))
+    prices, fired = feedmod.gen_prices(rng, ndates, tickers, faults={}, lo=50.0, hi=150.0)
+    lev = rng.choice([2.0, 3.0, 5.0])
+    d = rng.randint(1, ndates - 1)
+    outcome = rng.choice(["cross", "cross", "near", "near", "survive"])
+    brk = 1.0 / lev
+    mag = brk * {"cross": rng.uniform(1.15, 1.6), "near": rng.uniform(0.98, 1.02), "survive": rng.uniform(0.3, 0.7)}[outcome]
+    p0 = prices[0][0]
+    for i in range(ndates):
+        prices[i][0] = round(p0 * (1 + 0.001 * (i % 3)) * (1.0 if i < d else (1 - mag)), 4)
+    coup = round(p0 * rng.choice([0.005, 0.01, 0.02]), 4)
+    cost = round(p0 * rng.choice([0.0, 0.002, 0.03]), 4)
+    fspec = {"dates": dates, "tickers": tickers, "prices": prices, "style": style,
+             "coupons": [[coup if rng.random() < 0.8 else 0.0, 0.0] for _ in dates], "cost_long": [[cost, 0.0] for _ in dates], "cost_short": [[0.0, 0.0] for _ in dates]}
+    tree = {"k": "S", "name": "root", "cls": "Strategy", "fi": False, "how": "list", "children": [
+        {"k": "X", "name": "M", "cls": rng.choice(["CouponPayingSecurity", "CouponPayingHedgeSecurity"]), "mult": 1.0, "decl": "obj"},
+        {"k": "X", "name": "N", "cls": "Security", "mult": 1.0, "decl": "obj"}]}
+    ops = [{"op": "tick"}, {"op": "alloc", "n": 0, "c": 0, "mode": "frac", "frac": lev, "direct": False, "upd": True}]
+    if rng.random() < 0.3:
+        ops.append({"op": "alloc", "n": 0, "c": 1, "mode": "frac", "frac": 0.1, "direct": False, "upd": True})
+    for _ in range(ndates - 1):
+        if rng.random() < 0.3:
+            ops.append({"op": "dup", "k": 1})
+        if rng.random() < 0.3:
+            ops.append({"op": "read", "n": rng.randrange(64), "c": rng.randrange(64), "sec": rng.random() < 0.5, "prop": rng.randrange(64)})
+        ops.append({"op": "tick"})
+    fired["price_shock_" + outcome] = 1
+    fired["levered_carry_book"] = 1
+    cfg = {"integer": rng.random() < 0.5, "comm": {"kind": "zero"}, "capital": rng.choice([1e5, 1e6]), "fi": False, "obs_price": rng.random() < 0.5, "flush": "eager", "profile": "bankrupt"}
+    return {"driver": "tree", "cfg": cfg, "tree": tree, "feed": fspec, "ops": ops, "fired": fired}
 
 
 def gen_ill_plan(rng, kind, tier="quick"):
